@@ -10,6 +10,9 @@ class TPM2B_ENCRYPTED_PARAM:
     encryptedParam: list[BYTE]
 
 
+_ENCRYPTED_TYPES = {}
+
+
 @tpm_dataclass
 class TPMS_PARAMS:
     _encrypted = False
@@ -29,7 +32,8 @@ class TPMS_PARAMS:
 
         new_type.__annotations__ = {**first_param, **other_params}
         new_type._encrypted = True
-        return tpm_dataclass(new_type)
+        # lru_cache may run concurrent first calls twice: all of them have to agree on one type
+        return _ENCRYPTED_TYPES.setdefault(cls, tpm_dataclass(new_type))
 
     @staticmethod
     def is_encrypted_params(fields_dict: any) -> bool:
